@@ -366,6 +366,7 @@ func runAllElems(c *Ctx, rule string) {
 // may change before validating (ErrEndFlag is documented as the clause separator the tools split on).
 // They are read where they are used; nothing is computed from them while the package is initialised.
 func runLiveSettings(c *Ctx, rule string) {
+	runSepLiteral(c, rule+"-LITERAL")
 	p := c.P
 	c.Rule(rule, "no package-level value is computed from an exported setting (e.g. the clause separator ErrEndFlag) at package initialisation: the setting is read at the time of use", 1)
 	pkg := p.Pkg("valid")
@@ -465,3 +466,117 @@ func runMissingReach(c *Ctx, rule string) {
 }
 
 var _ = strings.Contains
+
+// runReqDescend: rule <prop>-REQDESCEND. The struct walker's built-in required either reports the field
+// as missing or hands the (non-empty) value on to the nested descent, on every path — whatever the form of
+// the rule (with or without a custom message).
+func runReqDescend(c *Ctx, rule string) {
+	p := c.P
+	c.Rule(rule, "every path of VStruct.required writes the required clause or reaches the nested descent (exist): a non-empty struct/slice/map under required is validated recursively also when the rule carries a custom message", 1)
+	fn := p.Method("valid", "VStruct", "required")
+	if fn == nil {
+		c.Unk(rule, "(*valid.VStruct).required", "anchor", token.NoPos, "built-in required not found")
+		return
+	}
+	c.Funcs[fnName(fn)] = true
+	hasExist := false
+	hit := func(b *ssa.BasicBlock) bool {
+		for _, ins := range b.Instrs {
+			if call, ok := ins.(ssa.CallInstruction); ok {
+				if sc := staticCallee(call.Common()); sc != nil && sc.Name() == "exist" && sc.Signature.Recv() != nil {
+					hasExist = true
+					return true
+				}
+				if calleeName(call.Common()) == "(*strings.Builder).WriteString" {
+					return true
+				}
+			}
+		}
+		return false
+	}
+	leak := mustPass(fn, hit, nil)
+	for _, b := range fn.Blocks {
+		hit(b)
+	}
+	c.Sites++
+	msg := ""
+	if leak != nil {
+		msg = "a path of required returns at " + p.Pos(instrPos(leak.Instrs[len(leak.Instrs)-1])) + " without a clause and without descending: a non-empty nested object under e.g. 'required|message' is not validated, all violations inside it are lost"
+	} else if !hasExist {
+		msg = "required never reaches the nested descent"
+	}
+	c.Check(msg == "", rule, fnName(fn), "clause-or-descent", fn.Pos(), "clause or descent on every path", msg)
+}
+
+// runSepLiteral: rule <prop>-SEPLIT. The clause separator is the variable ErrEndFlag wherever a clause is
+// terminated, joined or split; its initial value does not appear as a literal in the code that builds or
+// takes apart error text.
+func runSepLiteral(c *Ctx, rule string) {
+	p := c.P
+	c.Rule(rule, "no string literal ending in the initial value of ErrEndFlag is written, concatenated or used as a separator in package valid: the separator is always read from the variable", 1)
+	pkg := p.Pkg("valid")
+	if pkg == nil {
+		c.Unk(rule, "valid", "anchor", token.NoPos, "package valid not loaded")
+		return
+	}
+	sep := ""
+	for _, m := range pkg.Members {
+		g, ok := m.(*ssa.Global)
+		if !ok || g.Name() != "ErrEndFlag" {
+			continue
+		}
+		if ini := pkg.Func("init"); ini != nil {
+			for _, b := range ini.Blocks {
+				for _, ins := range b.Instrs {
+					if st, ok := ins.(*ssa.Store); ok && st.Addr == ssa.Value(g) {
+						sep, _ = constString(st.Val)
+					}
+				}
+			}
+		}
+	}
+	if sep == "" {
+		c.Unk(rule, "valid.ErrEndFlag", "anchor", token.NoPos, "initial value of the separator variable not found")
+		return
+	}
+	var bad []string
+	n := 0
+	for _, fn := range p.Funcs {
+		if fn.Pkg != pkg || (fn.Name() == "init" && fn.Parent() == nil) {
+			continue
+		}
+		for _, b := range fn.Blocks {
+			for _, ins := range b.Instrs {
+				var ops []*ssa.Value
+				switch x := ins.(type) {
+				case *ssa.BinOp:
+					if x.Op != token.ADD {
+						continue
+					}
+					ops = x.Operands(ops)
+				case ssa.CallInstruction:
+					nm := calleeName(x.Common())
+					if !strings.HasPrefix(nm, "strings.") && !strings.HasPrefix(nm, "(*strings.Builder).") {
+						continue
+					}
+					ops = ins.Operands(ops)
+				default:
+					continue
+				}
+				for _, op := range ops {
+					if op == nil || *op == nil {
+						continue
+					}
+					if s, ok := constString(*op); ok && s != "" {
+						n++
+						if strings.HasSuffix(s, sep) {
+							bad = append(bad, fmt.Sprintf("%s: the literal %q carries the default separator: after the user changes ErrEndFlag this clause/extract still uses %q (two clauses fuse, or a dangling separator stays)", p.Pos(instrPos(ins)), s, sep))
+						}
+					}
+				}
+			}
+		}
+	}
+	c.Sites++
+	c.Check(len(bad) == 0 && n > 0, rule, "valid", "no-literal-separator", token.NoPos, fmt.Sprintf("%d string literals in text-building calls, none ends in the default separator %q", n, sep), uniqJoin(bad, 3))
+}
